@@ -15,11 +15,11 @@ variable {F : Nat → Option (List Nat)}
 def initF (cap1 cap2 bm1 bm2 mw : Nat) (ns : Option Nat) (fwd ff : Bool) (inputs : List InSpec) (gens : List Nat) : Cfg :=
   { init cap1 cap2 bm1 bm2 mw ns fwd inputs gens with fifo := ff }
 
-theorem good_initF (cap1 cap2 bm1 bm2 mw : Nat) (ns : Option Nat) (ff : Bool) (inputs : List InSpec) (gens : List Nat) :
-    Good (initF cap1 cap2 bm1 bm2 mw ns false ff inputs gens) := by
-  have g := good_init cap1 cap2 bm1 bm2 mw ns inputs gens
+theorem good_initF (cap1 cap2 bm1 bm2 mw : Nat) (ns : Option Nat) (fwd ff : Bool) (inputs : List InSpec)
+    (gens : List Nat) : Good (initF cap1 cap2 bm1 bm2 mw ns fwd ff inputs gens) := by
+  have g := good_init cap1 cap2 bm1 bm2 mw ns fwd inputs gens
   refine ⟨⟨g.inv.ti, g.inv.d1, g.inv.sub, ?_, g.inv.role0, g.inv.ilock, g.inv.ilockLt, g.inv.to1, g.inv.ig1, g.inv.to2,
-    g.inv.ig2, g.inv.gen⟩, g.live1, g.live2⟩
+    g.inv.ig2⟩, g.live1, g.live2⟩
   intro _ i j ti tj hij _ htj hs
   exfalso
   cases j with
@@ -91,15 +91,15 @@ theorem map_const_replicate {α β} (l : List α) (b : β) : (l.map fun _ => b) 
   | nil => rfl
   | cons a l ih => simp [List.replicate_succ, ih]
 
-/-- **deadlock freedom of the two-queue LTS** (generator `iterator_fn`): a reachable configuration without enabled step is
+/-- **deadlock freedom of the two-queue LTS**: a reachable configuration without enabled step is
 final, provided the pool is unbounded or has more workers than inputs and (unless it is FIFO) more workers than
 `iterator_fn` tasks -/
-theorem no_deadlock {cap1 cap2 bm1 bm2 mw : Nat} {ns : Option Nat} {ff : Bool} {inputs : List InSpec} {gens : List Nat}
-    {c : Cfg} (hin : inputs ≠ []) (hgen : gens ≠ [])
+theorem no_deadlock {cap1 cap2 bm1 bm2 mw : Nat} {ns : Option Nat} {fwd ff : Bool} {inputs : List InSpec}
+    {gens : List Nat} {c : Cfg} (hin : inputs ≠ []) (hgen : gens ≠ [])
     (hpool : mw = 0 ∨ (inputs.length < mw ∧ (ff = true ∨ gens.length < mw)))
-    (h : Reachable F (initF cap1 cap2 bm1 bm2 mw ns false ff inputs gens) c) (hq : c.quiescent F) :
+    (h : Reachable F (initF cap1 cap2 bm1 bm2 mw ns fwd ff inputs gens) c) (hq : c.quiescent F) :
     c.allDone = true := by
-  have hg := good_reachable (good_initF cap1 cap2 bm1 bm2 mw ns ff inputs gens) h
+  have hg := good_reachable (good_initF cap1 cap2 bm1 bm2 mw ns fwd ff inputs gens) h
   have hf := reachable_frame h
   have hroles : c.ths.map (·.role) =
       Role.cons :: (List.replicate inputs.length Role.l1 ++ List.replicate gens.length Role.l2) := by
